@@ -128,6 +128,7 @@ func (c *checker) writeEvidence() {
 		"response_classes":                    classes,
 		"reach_cells":                         cellCount,
 		"cross_process_plans_checked":         c.crossChecked,
+		"battery_after_history_comparisons":   c.batteryChecked,
 		"cross_process_mismatches":            c.crossMismatch,
 		"plans_rerun_each_in_a_fresh_process": c.freshChecked,
 		"node_deaths":                         c.deaths,
